@@ -149,6 +149,8 @@ def replay_unit(build, prop, unit_cfg, path, workdir, timeout=180, raw=False):
         return "pass", out
     if "REPLAY-FAIL" in out:
         return "fail", out
+    if "VERIF-NORETURN:" in out:
+        return "noreturn", out
     if rc == "timeout" or "panic: test timed out" in out:
         return "hang", out
     if rc != 0 and (LIB_FRAME in out) and ("panic:" in out or "fatal error:" in out or "DATA RACE" in out):
@@ -327,7 +329,7 @@ def main():
             if st == "pass":
                 log("REPLAY-PASS property=%s" % prop)
                 return 0
-            if st in ("fail", "crash", "hang"):
+            if st in ("fail", "crash", "hang", "noreturn"):
                 log("VIOLATION property=%s replay=%s" % (prop, path))
                 return 1
             return 2
@@ -373,7 +375,7 @@ def check(prop, tier, seed, cfg, build, workdir, t0):
             if kf:
                 log("note: known finding %s no longer reproduces from %s (line can become 'fixed:')" % (kf[0]["id"], rel))
             continue
-        if st in ("fail", "crash", "hang"):
+        if st in ("fail", "crash", "hang", "noreturn"):
             if kf:
                 log("KNOWN-FINDING: property=%s %s %s" % (prop, kf[0]["id"], kf[0]["text"]))
             else:
@@ -448,17 +450,18 @@ def check(prop, tier, seed, cfg, build, workdir, t0):
                 inconclusive.append("%s shard %d: race outside the library" % (u["test"], sh))
             continue
         hung = rc == "timeout" or "panic: test timed out" in out
-        crashed = (not hung) and ("panic:" in out or "fatal error:" in out or "SIGSEGV" in out)
-        if (hung or crashed) and os.path.exists(curp):
+        noreturn = "VERIF-NORETURN:" in out
+        crashed = (not hung) and (not noreturn) and ("panic:" in out or "fatal error:" in out or "SIGSEGV" in out)
+        if (hung or crashed or noreturn) and os.path.exists(curp):
             # confirm in fresh processes before reporting anything
-            want = "hang" if hung else "crash"
+            want = "hang" if hung else ("noreturn" if noreturn else "crash")
             n_ok = 0
             tries = 2
             for _ in range(tries):
                 st, rout = replay_unit(build, prop, u, curp, workdir, timeout=spec.get("hang_timeout", 120))
                 if st == want or (want == "crash" and st == "fail"):
                     n_ok += 1
-            if n_ok == tries and (hung or LIB_FRAME in out):
+            if n_ok == tries and (hung or noreturn or LIB_FRAME in out):
                 dst = save_replay(curp, prop, u["test"], tag + "-" + want)
                 log("---- %s shard %d: %s confirmed %d/%d\n%s" % (u["test"], sh, want, n_ok, tries, out[-4000:]))
                 violations.append(dst)
